@@ -10,11 +10,14 @@ HOSTS = {
     "direct": ("timer_cmd", "verdicts"),
     "core": ("timer_core", "verdicts_core"),
     "legacy": ("timer_legacy", "verdicts_legacy"),
+    # one process starting timers through every entry point (both APIs in one app + direct Commands)
+    "mixed": ("timer_mixed", "verdicts_mixed"),
 }
 KNOWN = {101: "legacy_clear_unrequested", 102: "legacy_clear_after_outcome"}   # verdict code 100+k -> class name
 
 def first_id(c):
     m = re.search(r"OStarted (\d+)", c["obs"]) or re.search(r"LStarted (\d+)", c["obs"])
+    if not m and c.get("host") == "mixed": m = re.search(r"(\d+)", c["obs"])
     return m.group(1) if m else "0"
 
 def norm_ins(c):
@@ -25,7 +28,7 @@ def norm_ins(c):
 def case_text(host, cases):
     fn = HOSTS[host][1]
     t = ["From Coq Require Import List NArith Bool. Import ListNotations.",
-         "From Crux Require Import Timer.Machine Timer.Spec%s." % (" Timer.Legacy" if host == "legacy" else ""),
+         "From Crux Require Import Timer.Machine Timer.Spec%s." % ({"legacy": " Timer.Legacy", "mixed": " Timer.Mixed"}.get(host, "")),
          "Open Scope N_scope.",
          "Definition cs := ["]
     t.append(";\n".join("(%s, %s, %s)" % (first_id(c), c["ins"], c["obs"]) for c in cases))
@@ -42,7 +45,8 @@ def check_C18(run, replay=None):
     # direct host: <seed> <max_len_1> <max_len_2> <n_random> <n_malformed>
     args = {"timer_cmd": "%d 7 4 400 400" if quick else "%d 8 5 20000 20000",
             "timer_core": "%d 6 4 300 300" if quick else "%d 7 5 10000 10000",
-            "timer_legacy": "%d 6 4 300 300" if quick else "%d 7 5 10000 10000"}
+            "timer_legacy": "%d 6 4 300 300" if quick else "%d 7 5 10000 10000",
+            "timer_mixed": "%d 5 120" if quick else "%d 8 5000"}
     have = [h for h in HOSTS if os.path.exists(os.path.join(C.ROOT, "harness", "src", "bin", HOSTS[h][0] + ".rs"))]
     all_cases = []   # the binaries run corpus/timer/<host>.txt first (class "corpus")
     want = None
@@ -72,6 +76,31 @@ def check_C18(run, replay=None):
         rerun = [c for c in all_cases if (c["host"], norm_ins(c)) in want]
         run.oblige("replay: %d of %d recorded input sequences re-executed on the real code" % (len({(c["host"], norm_ins(c)) for c in rerun}), len(want)), True, "")
         all_cases = rerun if rerun else recorded
+    # process-wide distinctness: all ids handed out during one run of timer_mixed (one process, every
+    # entry point), in order; judged as ONE case by the same Coq predicate when small enough, and
+    # always at harness level (duplicates / non-consecutive ids across the whole process run)
+    whole = collections.defaultdict(list)
+    for c in all_cases:
+        if c.get("host") == "mixed" and want is None: whole[c.get("profile", "dev")].append(c)
+    for prof, cs in whole.items():
+        ids = [int(x) for c in cs for x in re.findall(r"\d+", c["obs"])]
+        dup = sorted({x for x in ids if ids.count(x) > 1}) if len(ids) < 20000 else sorted(collections.Counter(ids) - collections.Counter(set(ids)))
+        consecutive = all(b == a + 1 for a, b in zip(ids, ids[1:]))
+        run.oblige("process-wide (%s): the %d ids handed out in one process through direct Commands, Core-hosted commands and the legacy capability are pairwise distinct and consecutive" % (prof, len(ids)),
+                   not dup and consecutive, "duplicates: %s" % dup[:10])
+        joined = {"host": "mixed", "class": "whole-process", "profile": prof, "routed": True,
+                  "ins": "[" + "; ".join(c["ins"][1:-1] for c in cs if c["ins"] != "[]") + "]",
+                  "obs": "[" + "; ".join(c["obs"][1:-1] for c in cs if c["obs"] != "[]") + "]"}
+        if dup or not consecutive or len(ids) <= 4000:
+            if len(ids) > 4000:   # keep the Coq evaluation small: the prefix up to the first duplicate
+                first = min(i for i, x in enumerate(ids) if ids.index(x) != i) if dup else 4000
+                k = 0; acc = []
+                for c in cs:
+                    acc.append(c); k += len(re.findall(r"\d+", c["obs"]))
+                    if k > first: break
+                joined["ins"] = "[" + "; ".join(c["ins"][1:-1] for c in acc) + "]"
+                joined["obs"] = "[" + "; ".join(c["obs"][1:-1] for c in acc) + "]"
+            all_cases.append(joined)
     by_host = collections.defaultdict(list)
     for c in all_cases: by_host[c["host"]].append(c)
     texts, shards = [], []
@@ -89,7 +118,7 @@ def check_C18(run, replay=None):
         for c, v in zip(sh, vals[0]):
             hist[(h, c.get("class", "?"))] += 1
             o = c["obs"]
-            nontrivial = ("Completed" in o) or ("Cleared" in o) or ("EClear" in o) or ("OPanic" in o) or ("LOut" in o)
+            nontrivial = ("Completed" in o) or ("Cleared" in o) or ("EClear" in o) or ("OPanic" in o) or ("LOut" in o) or (h == "mixed" and len(set(re.findall(r"A\w+", c["ins"]))) > 1)
             for tag in ("Completed", "Cleared", "EClear", "OPanic", "true", "ORes 1", "ORes 2"):
                 if tag in o: dist[tag] += 1
             run.note_case((h, c["ins"]), nontrivial=nontrivial)
@@ -100,14 +129,19 @@ def check_C18(run, replay=None):
             elif v >= 100: run.known_seen.setdefault(KNOWN.get(v, "class_%d" % v), {"ins": c["ins"], "obs": c["obs"], "host": h})
     run.oblige("correspondence model = implementation on %d cases (%s)" % (len(all_cases), ", ".join(sorted(by_host))),
                not differ and not genbug, json.dumps((differ + genbug)[:3])[:1500])
+    unrouted = [c for c in all_cases if c.get("host") == "mixed" and not c.get("routed", True)]
+    for c in unrouted:
+        if c not in fail: fail.append(c)
     run.oblige("C18_ok holds on every implementation trace outside known classes", not fail, json.dumps(fail[:3])[:1500])
+    run.oblige("process-wide: every request the shell received names exactly one timer of the run (direct + Core command API + legacy API in one process)", not unrouted, json.dumps(unrouted[:2])[:800])
     if fail:
         fail.sort(key=shrink_key)
         fail = fail[:20]
         # shrink: length of the shortest rejected prefix of each failing case (C18_ok is prefix-closed)
         try:
             groups = collections.defaultdict(list)
-            for c in fail: groups[c["host"]].append(c)
+            for c in fail:
+                if c["host"] != "mixed": groups[c["host"]].append(c)
             hs = sorted(groups)
             txt = [case_text(h, groups[h]).replace("(%s cs)" % HOSTS[h][1], "(%s cs)" % ("shortest_fails_legacy" if h == "legacy" else "shortest_fails")) for h in hs]
             for h, (ok, vals, raw) in zip(hs, C.run_case_files("C18_shrink", txt)):
